@@ -3,7 +3,7 @@
 (* with either (labels are not unique: twins, ligand atoms).  Up to MaxDet       *)
 (* determinants per list, also several towards the same partner.                 *)
 EXTENDS Coupling, Json
-CONSTANTS MaxDet, Emit, EqualLabels
+CONSTANTS MaxDet, Emit, EqualLabels, EmitMod, EmitRes     \* the generator prints the configurations with Idx % EmitMod = EmitRes
 VARIABLES lab, det, orig, step
 vars == <<lab, det, orig, step>>
 G == 1..3
@@ -38,6 +38,11 @@ ThirdUntouched == step >= 0 => det[3] = orig[3]
 (* a swap moves exactly the mutual determinants: totals of the pair are exchanged parts *)
 StepZero == step <= 0
 StepZeroShared == step <= 0 /\ lab[3] = lab[1]
-EmitInv == (Emit /\ step = 0) =>
+RECURSIVE SumVals(_)
+SumVals(q) == IF q = <<>> THEN 0 ELSE q[1].v + q[1].to + SumVals(Tail(q))
+Idx == Len(det[1].cb) + 3 * Len(det[2].cb) + 5 * Len(det[1].sc) + 7 * Len(det[2].sc) + 11 * Len(det[3].cb)
+       + SumVals(det[1].cb) + 2 * SumVals(det[2].cb) + SumVals(det[1].sc) + 3 * SumVals(det[2].sc) + SumVals(det[3].cb)
+       + (IF lab[1] = lab[2] THEN 1 ELSE 0) + (IF lab[3] = lab[1] THEN 2 ELSE 0)
+EmitInv == (Emit /\ step = 0 /\ Idx % EmitMod = EmitRes) =>
    PrintT(ToJson([lab |-> lab, det |-> det, after1 |-> Swap(det, lab, 1, 2), after2 |-> Swap(Swap(det, lab, 1, 2), lab, 1, 2)]))
 =============================================================================
